@@ -989,6 +989,16 @@ def ref_prefix(ctx: Ctx) -> RuleResult:
         for n in regs:
             ok = bool(n.args) and isinstance(n.args[0], ast.Call) and (
                 (pname is not None and dotted(n.args[0].func) == pname) or dotted(n.args[0].func) in mod_pref)
+            if not ok and n.args and isinstance(n.args[0], ast.Name):
+                # the prefixed id computed by the caller: every call site hands over the result of a prefixer for that parameter
+                hp = [a.arg for a in h.node.args.posonlyargs + h.node.args.args + h.node.args.kwonlyargs]
+                if n.args[0].id in hp:
+                    from ..ctx import arg_for_param
+
+                    vals = [arg_for_param(h.node, c_, n.args[0].id) for _, c_ in ctx.callers_of(h.qualname)]
+                    nested_pref = {g.name for g in ctx.P.funcs.values() if g.parent is not None and len(g.node.args.args) == 1
+                                   and any(isinstance(x, ast.Attribute) and x.attr == "DAG_PREFIX" for x in ast.walk(g.node))}
+                    ok = bool(vals) and all(isinstance(v_, ast.Call) and dotted(v_.func) in (mod_pref | nested_pref) for v_ in vals)
             r.ob(ok, {"argument holder id": norm_src(n)})
             if not ok:
                 r.violate(f"{h.short}: argument holder registered under an unprefixed id", h.loc(n),
